@@ -15,6 +15,11 @@ from vlib import fakedb, framework
 from vlib.framework import Harness
 from vlib.symx import Assume, assume, native
 
+try:  # warm import: symx.native()/assume() look at the tracer state (also in tracer-less replays)
+    import crosshair.tracers  # noqa: F401
+except ImportError:
+    pass
+
 from sqlalchemy import create_engine
 from sqlalchemy import exc as sa_exc
 from sqlalchemy.dialects import registry
@@ -269,24 +274,27 @@ def _statically_possible(prefix) -> bool:
     return True
 
 
-def _h_txn(n: int, alpha: int, c0: int, c1: int, ops) -> bool:
-    """History of ``n`` steps; step i is ``codes(alpha, n)[ops[i]]``.  The first (and, if ``c1 >= 0``, the
-    second) step is fixed by the slice, all other steps are symbolic."""
+def _h_txn(n: int, alpha: int, c0: int, lo1: int, hi1: int, ops) -> bool:
+    """History of ``n`` steps; step i is ``codes(alpha, n)[ops[i]]``.  If ``c0 >= 0`` the slice fixes the
+    first step and, if ``lo1 >= 0``, restricts the second step to ``lo1 <= ops[1] < hi1``; everything else
+    is symbolic."""
     table = codes(alpha, n)
     r = len(table)
-    ok = ops[0] == c0
-    fixed = 1
-    if c1 >= 0:
-        ok = ok & (ops[1] == c1)
-        fixed = 2
+    ok = True
+    fixed = 0
+    if c0 >= 0:
+        ok = ops[0] == c0
+        fixed = 1
     for x in ops[fixed:]:
         ok = ok & (0 <= x) & (x < r)
+    if lo1 >= 0:
+        ok = ok & (lo1 <= ops[1]) & (ops[1] < hi1)
     assume(ok)  # one fork for all bounds
     # realise the history (solver-decided binary search per step) and drop histories that are impossible
     # whatever SQLAlchemy does, before an engine is built
     hist = []
     for i in range(n):
-        c = c0 if i == 0 else (c1 if i < fixed else _pick(ops[i], 0, r))
+        c = c0 if i < fixed else (_pick(ops[i], lo1, hi1) if (i == 1 and lo1 >= 0) else _pick(ops[i], 0, r))
         hist.append(table[c])
         assume(_statically_possible(hist))
     # from here on everything is concrete: the real SQLAlchemy code runs with the tracer paused
@@ -297,11 +305,11 @@ def _h_txn(n: int, alpha: int, c0: int, c1: int, ops) -> bool:
 
 
 def _make(n: int):
-    def h(alpha, c0, c1, ops):
-        return _h_txn(n, alpha, c0, c1, ops)
+    def h(alpha, c0, lo1, hi1, ops):
+        return _h_txn(n, alpha, c0, lo1, hi1, ops)
 
     h.__name__ = h.__qualname__ = "h_txn_%d" % n
-    h.__annotations__ = {"alpha": int, "c0": int, "c1": int, "ops": Tuple[(int,) * n], "return": bool}
+    h.__annotations__ = {"alpha": int, "c0": int, "lo1": int, "hi1": int, "ops": Tuple[(int,) * n], "return": bool}
     h.__doc__ = "symbolic history of %d steps" % n
     return h
 
@@ -554,15 +562,17 @@ def _run(hist) -> bool:
 # --------------------------------------------------------------------------------------------------
 
 META = {
-    "explanation": "Real Engine/Connection/RootTransaction/NestedTransaction/TransactionalContext over a transactional "
-                   "fake DBAPI; the operation history (op codes + handle indices) is symbolic; after every step "
-                   "in_transaction(), in_nested_transaction(), every handle's is_active, the rows committed on the "
-                   "fake server, the uncommitted rows and the number of open savepoints on the DBAPI connection are "
-                   "compared with a stack-of-pending-lists reference model.",
+    "explanation": "Real Engine/Connection/RootTransaction/NestedTransaction/TransactionalContext over a transactional fake DBAPI. "
+                   "The operation history (a tuple of step codes: operation + handle index) is symbolic; the solver decides every "
+                   "step (binary search over z3-decided comparisons), statically impossible histories are cut before an engine is "
+                   "built, and the SQLAlchemy code then runs on the realised history (no symbolic value can reach it: statements are "
+                   "fixed strings).  After every step in_transaction(), in_nested_transaction(), every handle's is_active, the rows "
+                   "committed on the fake server, the uncommitted rows and the number of savepoints on the DBAPI connection are compared "
+                   "with a stack-of-pending-lists reference model; expected InvalidRequestErrors must be raised without any DBAPI call.",
     "functions": [
         "engine.base.Connection.{begin,begin_nested,_autobegin,commit,rollback,close,in_transaction,in_nested_transaction,"
         "get_transaction,exec_driver_sql,_execute_context,_begin_impl,_commit_impl,_rollback_impl,_savepoint_impl,"
-        "_release_savepoint_impl,_rollback_to_savepoint_impl}",
+        "_release_savepoint_impl,_rollback_to_savepoint_impl,_invalid_transaction}",
         "engine.base.RootTransaction.{__init__,_do_commit,_do_rollback,_do_close,_close_impl,_deactivate_from_connection}",
         "engine.base.NestedTransaction.{__init__,_do_commit,_do_rollback,_do_close,_close_impl,_cancel,_deactivate_from_connection}",
         "engine.base.Transaction.{commit,rollback,close}",
@@ -570,13 +580,14 @@ META = {
         "pool checkin on Connection.close (QueuePool, reset_on_return=rollback)",
     ],
     "bounds": {
-        "quick": {"history length": "<=3 over all 14 operations; 4 for histories starting with begin / begin_nested / with-begin",
-                  "handle operations": "commit/rollback/close on any handle created earlier (active, ended, of a closed Connection)"},
-        "thorough": {"history length": "<=4 over all 14 operations; 5 over the 11-operation alphabet ALPHABETS[1]",
+        "quick": {"history length": "<=4 over the 14 operations of ALPHABETS[0]; <=3 over ALPHABETS[2] (with a DBAPI commit() that fails)",
+                  "handle operations": "commit/rollback/close on any handle created earlier (active, ended, stale, of a closed Connection)"},
+        "thorough": {"history length": "<=4 over ALPHABETS[0]; 5 over the 11 operations of ALPHABETS[1]; <=4 over ALPHABETS[2]",
                      "handle operations": "any handle created earlier"},
     },
     "outside": [
-        "real servers (SQLite/PostgreSQL/MariaDB): the fake DBAPI implements standard SAVEPOINT semantics, statement errors do not abort the transaction",
+        "real servers (SQLite/PostgreSQL/MariaDB): the fake DBAPI implements standard SAVEPOINT semantics (ROLLBACK TO keeps the savepoint), "
+        "statement errors do not abort the transaction, a failed COMMIT leaves the transaction open (as SQLite does for deferred constraints)",
         "two-phase transactions, async, threads",
         "after RELEASE / ROLLBACK TO of an *outer* savepoint while an inner one is open (undocumented misuse; SQLAlchemy warns and keeps the "
         "inner handle 'active'): only the rows are checked and the history must continue with an operation that ends the outer transaction",
@@ -584,41 +595,53 @@ META = {
         "InvalidRequestError after the handle was already marked inactive)",
         "rollback()/close() of an already ended handle may either raise InvalidRequestError or be a no-op (the test-suite expects a warning); "
         "in both cases nothing may change",
-        "DBAPI failures during commit/rollback/savepoint statements (see C27)",
+        "in_transaction()/is_active while the Connection waits for rollback() after a failed DBAPI commit; with-blocks in those histories",
+        "DBAPI failures other than one ordinary error in commit() (see C27)",
     ],
-    "stubs": ["vlib/fakedb.py fake DBAPI + FakeDialect (savepoints are dialect hooks on the fake connection, no SQL is compiled)"],
+    "stubs": ["vlib/fakedb.py fake DBAPI, extended in props/C23.py (Dialect23/Cursor23): SAVEPOINT / RELEASE / ROLLBACK TO are statements "
+              "executed through Connection.exec_driver_sql, as on real dialects; no SQL is compiled"],
     "assumptions": ["with-blocks are exited in LIFO order (as the with statement guarantees)",
-                    "engine creation and the first connect run concretely (no symbolic input reaches them)"],
+                    "engine creation, the first connect and everything after the solver has fixed the history run concretely (tracer paused)"],
 }
 
 
-def _slices(n: int, alpha: int, first_ops=None, split_second: bool = False):
+def _slices(n: int, alpha: int, split: int):
+    """split 0: one slice; 1: one slice per first step; k > 1: per first step and k ranges of the second."""
+    if split == 0:
+        return [dict(alpha=alpha, c0=-1, lo1=-1, hi1=-1)]
     table = codes(alpha, n)
+    r = len(table)
     out = []
     for c0, step0 in enumerate(table):
-        if not _statically_possible([step0]) or (first_ops is not None and step0[0] not in first_ops):
+        if not _statically_possible([step0]):
             continue
-        if not split_second or n < 2:
-            out.append(dict(alpha=alpha, c0=c0, c1=-1))
+        if split == 1 or n < 2:
+            out.append(dict(alpha=alpha, c0=c0, lo1=-1, hi1=-1))
             continue
-        for c1, step1 in enumerate(table):
-            if _statically_possible([step0, step1]):
-                out.append(dict(alpha=alpha, c0=c0, c1=c1))
+        bounds = [(j * r) // split for j in range(split + 1)]
+        for j in range(split):
+            lo, hi = bounds[j], bounds[j + 1]
+            if any(_statically_possible([step0, table[c1]]) for c1 in range(lo, hi)):
+                out.append(dict(alpha=alpha, c0=c0, lo1=lo, hi1=hi))
     return out
 
 
 def harnesses(tier: str) -> List[Harness]:
     q = tier == "quick"
     per_n = {n: [] for n in range(1, MAXN + 1)}
-    for n in (1, 2, 3):
-        per_n[n] += _slices(n, 0)
-    per_n[4] += _slices(4, 0, split_second=True)
+    per_n[1] += _slices(1, 0, 0)
+    per_n[2] += _slices(2, 0, 0)
+    per_n[3] += _slices(3, 0, 1)
+    per_n[4] += _slices(4, 0, 1)
     if not q:
-        per_n[5] += _slices(5, 1, split_second=True)
+        per_n[5] += _slices(5, 1, 2)
     # DBAPI commit() failing with an ordinary error
-    for n in (1, 2, 3) if q else (1, 2, 3, 4):
-        per_n[n] += _slices(n, 2, split_second=(n == 4))
-    return [Harness("txn_history_n%d" % n, H_TXN[n], sl, budget_s=80 if q else 800) for n, sl in per_n.items() if sl]
+    per_n[1] += _slices(1, 2, 0)
+    per_n[2] += _slices(2, 2, 0)
+    per_n[3] += _slices(3, 2, 0)
+    if not q:
+        per_n[4] += _slices(4, 2, 0)
+    return [Harness("txn_history_n%d" % n, H_TXN[n], sl, budget_s=150 if q else 800) for n, sl in per_n.items() if sl]
 
 
 def _history(hname, args):
